@@ -81,13 +81,17 @@ end
 /-! ## PRNG (SplitMix64) -/
 structure Rng where
   s : UInt64
+  enumSeen : Nat := 0            -- enum leaves generated so far
+  corruptAt : Nat := 1000000000  -- index of the enum leaf to corrupt (none by default)
+  corruptMode : Nat := 0
+  bad : Option (Nat × Nat) := none   -- (undeclared value written, wire bytes)
 
 def Rng.next (r : Rng) : UInt64 × Rng :=
   let s := r.s + 0x9E3779B97F4A7C15
   let z := s
   let z := (z ^^^ (z >>> 30)) * 0xBF58476D1CE4E5B9
   let z := (z ^^^ (z >>> 27)) * 0x94D049BB133111EB
-  (z ^^^ (z >>> 31), ⟨s⟩)
+  (z ^^^ (z >>> 31), { r with s := s })
 
 def Rng.below (r : Rng) (n : Nat) : Nat × Rng :=
   let (x, r) := r.next
@@ -166,11 +170,26 @@ def genLeaf (ctx : GenCtx) (id : Nat) (l : Leaf) (r : Rng) : Option (Val × Rng)
         let (x, r) := r.below bound
         some (.nat (if c == 0 then 0 else if c == 1 then bound - 1 else if c == 2 then x % 256 else x), r)
   | .bool _ => let (x, r) := r.below 2; some (.nat x, r)
-  | .enumT _ _ vals =>
+  | .enumT k _ vals =>
       if vals.isEmpty then none else
       let pool := if interesting.isEmpty then vals else (interesting.filter vals.contains) ++ vals
       let (i, r) := r.below pool.length
-      some (.nat (pool.getD i 0), r)
+      let idx := r.enumSeen
+      let r := { r with enumSeen := idx + 1 }
+      if idx == r.corruptAt then
+        -- an undeclared number at the full wire width: aliases of a declared value modulo 2^8 / 2^16, neighbours, the maximum
+        let bound := 256 ^ k
+        let d := pool.getD i 0
+        let cands : List Nat := match r.corruptMode % 4 with
+          | 0 => [d + 256, d + 65536, d + 256 * 255]
+          | 1 => [d + 65536, d + 16777216, d + 256]
+          | 2 => [bound - 1, bound - 2, bound / 2]
+          | _ => (List.range 300).map (· + 1)
+        let cands := cands ++ (List.range 300).map (fun j => (d + j + 1) % bound)
+        match cands.find? (fun c => c < bound && !vals.contains c) with
+        | some c => some (.nat c, { r with bad := some (c, k) })
+        | none => some (.nat (pool.getD i 0), r)          -- every number of this width is declared
+      else some (.nat (pool.getD i 0), r)
   | .lvl _ => let (x, r) := r.below 256; some (.nat x, r)
   | .dateTime =>
       let (y, r) := r.below 256
@@ -257,7 +276,31 @@ end
 
 def genContainer (c : Members) (seed : Nat) (maxLen : Nat := 4) : Option (List Val) :=
   let ctx : GenCtx := { lens := lenVars c, conds := condVals c, maxLen := maxLen }
-  (genMembers ctx c [] ⟨UInt64.ofNat seed⟩).map (·.1)
+  (genMembers ctx c [] { s := UInt64.ofNat seed }).map (·.1)
+
+/-- a value in which the `at_`-th enum field (generation order) carries an undeclared number -/
+def genCorrupt (c : Members) (seed at_ mode : Nat) : Option (List Val × Option (Nat × Nat)) :=
+  let ctx : GenCtx := { lens := lenVars c, conds := condVals c, maxLen := 3 }
+  (genMembers ctx c [] { s := UInt64.ofNat seed, corruptAt := at_, corruptMode := mode }).map fun (vs, _, r) => (vs, r.bad)
+
+-- the same container with enum membership not enforced (used only to WRITE corrupted encodings)
+mutual
+partial def loosenTy : Ty → Ty
+  | .leaf (.enumT k e _) => .leaf (.int k e)
+  | .leaf l => .leaf l
+  | .struct ms => .struct (loosenMs ms)
+  | .arrFixed n t => .arrFixed n (loosenTy t)
+  | .arrVar v t => .arrVar v (loosenTy t)
+partial def loosenMs : Members → Members
+  | .nil => .nil
+  | .cons (.field id role t) ms => .cons (.field id role (loosenTy t)) (loosenMs ms)
+  | .cons (.ifs v bs) ms => .cons (.ifs v (loosenB bs)) (loosenMs ms)
+  | .cons (.endless id t) ms => .cons (.endless id (loosenTy t)) (loosenMs ms)
+  | .cons (.optional i) ms => .cons (.optional (loosenMs i)) (loosenMs ms)
+partial def loosenB : Branches → Branches
+  | .els ms => .els (loosenMs ms)
+  | .cons c ms bs => .cons c (loosenMs ms) (loosenB bs)
+end
 
 /-- the first unsupported built-in a container mentions -/
 partial def firstPrim : Members → Option String
